@@ -120,7 +120,8 @@ Proof.
   intros c s i ch s' l HI1 HI2 [Ho Hr] H Ht. unfold step_w in H.
   destruct (getw s i) as [pc|] eqn:Hg; [|discriminate]. unfold getw in Hg.
   destruct (i1_w _ HI1 _ _ Hg) as (Hlo & Hlr & Hsc).
-  step_cases H; free_hyps; simpl in Hsc; try discriminate Hsc.
+  step_cases H; free_hyps; clear Hsc.
+  all: simpl in Ht; try discriminate Ht.
   all: unfold setw, hw_exit in *.
   all: repeat match goal with |- context [if ?b then _ else _] => destruct b eqn:? end.
   all: repeat match goal with |- context [match ?b with SWr _ => _ | SEnd => _ end] => destruct b eqn:? end.
